@@ -360,6 +360,20 @@ def minimise(binary, prop, plan, env, env2, avoid, known, sig, budget=400):
         return r.get('status') == 'viol' and signature(r) == sig
 
     cur = list(plan)
+    if cur and cur[0].startswith('#c19'):
+        # the plan of a C19 run is its seed; minimise the length of the schedule prefix (binary search)
+        m = re.match(r'#c19 rs=(\d+) maxsteps=(\d+) thorough=(\d)', cur[0])
+        lo, hi = 0, 200
+        mk = lambda k: ['#c19 rs=%s maxsteps=%d thorough=%s' % (m.group(1), k, m.group(3))]  # noqa: E731
+        if not same(mk(hi)):
+            return cur, tries[0]
+        while lo + 1 < hi:
+            mid = (lo + hi) // 2
+            if same(mk(mid)):
+                hi = mid
+            else:
+                lo = mid
+        return mk(hi), tries[0]
     n = 2
     while len(cur) >= 2 and tries[0] < budget:
         chunk = max(1, len(cur) // n)
@@ -500,8 +514,6 @@ def check(prop, tier):
             violations.append((rp, 'configuration %s (%s) does not compile: %s' % (c['name'], f, diag.splitlines()[-1][:300] if diag else '')))
     t_build = time.time() - t0
     runs_per = THOROUGH_RUNS if thorough else QUICK_RUNS
-    if prop == 'C19':
-        return check_c19(prop, tier, seed, cfgs, pairs, built, t0, violations)
     tmpdir = tempfile.mkdtemp(prefix='verif_cases_')
     jobs = []
     for (c, f) in pairs:
@@ -680,11 +692,6 @@ def write_evidence(prop, tier, seed, wall, t_build, agg, distinct, cfgs, pairs, 
     tmp = os.path.join(ROOT, 'evidence', '%s.json.tmp' % prop)
     json.dump(doc, open(tmp, 'w'), indent=1)
     os.replace(tmp, os.path.join(ROOT, 'evidence', '%s.json' % prop))
-
-
-def check_c19(prop, tier, seed, cfgs, pairs, built, t0, violations):
-    log('C19 mode not built yet')
-    return 2
 
 
 # ------------------------------------------------------------------------------------------------
